@@ -20,6 +20,7 @@ type c07LineDoc struct {
 	blocks  []string // top-level keys in order
 	seqKeys []string // top-level keys holding a block sequence
 	seqLen  map[string]int
+	njobs   int
 	globMap string // top-level key of a map with pattern-looking keys ("" if none)
 	victim  string // the unique value of the pattern-looking entry of globMap
 	mapKeys []string // top-level keys holding a block map
@@ -118,6 +119,15 @@ func c07LinesGen(r *rand.Rand) c07LineDoc {
 		}
 		d.blocks = append(d.blocks, "hosts")
 	}
+	// a list of maps with complex (non-scalar) keys, and a list of small maps with unique values
+	sb.WriteString("cx:\n  - ? [linux, amd64]\n    : fast\n    plain: 1\n  - ? {os: mac}\n    : slow\n")
+	d.blocks = append(d.blocks, "cx")
+	d.njobs = 3 + r.IntN(2)
+	sb.WriteString("jobs:\n")
+	for j := 0; j < d.njobs; j++ {
+		fmt.Fprintf(&sb, "  - name: jn%d\n    image: ji%d\n    cache: jc%d%s\n", j, j, j, cm())
+	}
+	d.blocks = append(d.blocks, "jobs")
 	// an inline map and an inline list of inline maps (sources / destinations of appends whose style differs)
 	// (no comment on the inline map's line: where yaml.v3 prints the line comment of an appended flow map is the
 	// recorded comment-migration finding of the tree family, not this family's business)
@@ -170,7 +180,15 @@ func c07LineCase(w *mon.Worker, r *rand.Rand) mon.Result {
 	if d.globMap != "" && r.IntN(2) == 0 {
 		return c07GlobDelete(d, r)
 	}
-	switch r.IntN(13) {
+	if r.IntN(3) == 0 {
+		return c07MultiDelete(d, r)
+	}
+	switch r.IntN(15) {
+	case 13:
+		// appending to a list rebuilds it from its elements: maps with complex keys come through intact
+		u = upd{`.cx += ["x"]`, nil}
+	case 14:
+		u = upd{`.zz_copy = .cx`, []string{"zz_copy"}}
 	case 10:
 		// an inline map of the document appended to a block list: the map it was read from keeps its line
 		u = upd{fmt.Sprintf(`.%s += .inl`, seq), []string{seq}}
@@ -217,6 +235,17 @@ func c07LineCase(w *mon.Worker, r *rand.Rand) mon.Result {
 		return res
 	}
 	res.Nontrivial = true
+	if u.expr == `.cx += ["x"]` {
+		// every line of `yq .` is still there, in order, and exactly one line came in
+		bl, gl := strings.Split(base, "\n"), strings.Split(got, "\n")
+		if len(gl) != len(bl)+1 || !subsequence(bl, gl) {
+			res.Verdict = mon.Violated
+			res.Detail = fmt.Sprintf("update `%s` appends one element, every other line must come through unchanged\n--- yq . ---\n%s--- yq u ---\n%s", u.expr, clipStr(base, 1200), clipStr(got, 1200))
+			return res
+		}
+		res.Verdict, res.Detail = mon.Held, "one line added, the rest unchanged"
+		return res
+	}
 	// inside a touched map only additions are allowed for the pure-addition updates: every line of the
 	// block in `yq .` must still be there in order
 	b, g := base, got
@@ -235,6 +264,9 @@ func c07LineCase(w *mon.Worker, r *rand.Rand) mon.Result {
 		var rb, rg []string
 		rb, ok1 = cutBlock(b, k)
 		rg, ok2 = cutBlock(g, k)
+		if !ok1 && ok2 && strings.HasPrefix(u.expr, "."+k+" =") {
+			ok1 = true // the block is new: there is nothing to cut out of `yq .`
+		}
 		if !ok1 || !ok2 {
 			res.Verdict, res.Detail = mon.Inconclusive, "block not found in output"
 			return res
@@ -289,6 +321,57 @@ func c07GlobDelete(d c07LineDoc, r *rand.Rand) mon.Result {
 		return res
 	}
 	res.Verdict, res.Detail = mon.Held, "only the selected entry's line removed"
+	return res
+}
+
+// c07MultiDelete: several deletes in one call, written out of document order, mixing a whole element of a list
+// with single entries of later elements: exactly the selected lines disappear.
+func c07MultiDelete(d c07LineDoc, r *rand.Rand) mon.Result {
+	res := mon.Result{Tags: []string{"family:lines", "lines:multi_delete"}}
+	n := d.njobs
+	whole := r.IntN(n)
+	var sels, gone []string
+	sels = append(sels, fmt.Sprintf(".jobs[%d]", whole))
+	gone = append(gone, fmt.Sprintf("jn%d", whole), fmt.Sprintf("ji%d", whole), fmt.Sprintf("jc%d", whole))
+	for j := 0; j < n; j++ {
+		if j == whole || r.IntN(2) == 0 {
+			continue
+		}
+		f := []string{"image", "cache"}[r.IntN(2)]
+		sels = append(sels, fmt.Sprintf(".jobs[%d].%s", j, f))
+		gone = append(gone, fmt.Sprintf("j%s%d", f[:1], j))
+	}
+	r.Shuffle(len(sels), func(i, j int) { sels[i], sels[j] = sels[j], sels[i] })
+	expr := "del(" + strings.Join(sels, ", ") + ")"
+	res.Case = map[string]any{"text": d.text, "update": expr, "kind": "lines_multi_delete"}
+	res.Sig = fmt.Sprintf("linesmulti|%x|%s", hashStr(d.text), expr)
+	base, e1, p1 := yqx.Eval(".", d.text, "yaml", "yaml")
+	got, e2, p2 := yqx.Eval(expr, d.text, "yaml", "yaml")
+	res.Evals += 2
+	if e1 != nil || p1 != nil || e2 != nil || p2 != nil {
+		res.Verdict, res.Detail = mon.Inconclusive, fmt.Sprintf("evaluation failed: %v %v %v %v", e1, p1, e2, p2)
+		return res
+	}
+	res.Nontrivial = len(sels) >= 2
+	var want []string
+	for _, ln := range strings.Split(base, "\n") {
+		drop := false
+		for _, g := range gone {
+			if strings.HasSuffix(strings.TrimSpace(strings.SplitN(ln, " #", 2)[0]), ": "+g) {
+				drop = true
+			}
+		}
+		if !drop {
+			want = append(want, ln)
+		}
+	}
+	// an element whose first entry (name) stays but whose dash line went: not generated (name is never deleted alone)
+	if strings.Join(want, "\n") != got {
+		res.Verdict = mon.Violated
+		res.Detail = fmt.Sprintf("`%s` must remove exactly the selected lines\n--- expected ---\n%s--- yq u ---\n%s", expr, clipStr(strings.Join(want, "\n"), 1200), clipStr(got, 1200))
+		return res
+	}
+	res.Verdict, res.Detail = mon.Held, fmt.Sprintf("%d selections removed, nothing else", len(sels))
 	return res
 }
 
